@@ -158,8 +158,13 @@ def ang2pix(nside, lon, lat, nest=True, lonlat=True):
 
 
 def install() -> None:
-    if "healpy" in sys.modules and not getattr(sys.modules["healpy"], "_yaw_verif_standin", False):
-        return  # a real healpy is available: use it
+    try:
+        import healpy  # noqa: F401
+
+        if not getattr(healpy, "_yaw_verif_standin", False):
+            return  # a real healpy is available: use it
+    except ImportError:
+        pass
     if "yaw.randoms" in sys.modules and not sys.modules["yaw.randoms"].HEALPY_ENABLED:
         raise RuntimeError("fakehealpy.install() must run before yaw is imported")
     mod = types.ModuleType("healpy")
